@@ -73,14 +73,21 @@ def renderTraces (l : List (List Ev)) : String :=
 
 def renderList (l : List String) : String := if l.isEmpty then "-" else ",".intercalate l
 
+/-- `src=just:1,2`: `ro.Just(1, 2)` plays `N1,N2,C` inside every Subscribe (operator_creation.go) -/
+def justPre (c : Case) : Option (List (List Ev)) :=
+  let s := c.getD "src" "probe"
+  if s.startsWith "just:" then
+    some [((parseInts (s.drop 5).toString).map Ev.next) ++ [Ev.complete]]
+  else none
+
 def run (c : Case) : String :=
-  match parsePre (c.getD "pre" "-"), parseEvents (c.getD "ev" "-") with
+  match (justPre c).orElse (fun _ => parsePre (c.getD "pre" "-")), parseEvents (c.getD "ev" "-") with
   | some pre, some evs =>
     match parseCfg c pre with
     | none => s!"res {c.id} unsupported"
     | some cfg =>
       let s := Ro.Share.run cfg evs
-      let up := (Ro.Share.counters cfg {} evs).map fun p => s!"{p.1}/{p.2}"
+      let up := if (justPre c).isSome then [] else (Ro.Share.counters cfg {} evs).map fun p => s!"{p.1}/{p.2}"
       s!"res {c.id} traces={renderTraces (Ro.Share.traces s)} up={renderList up} drops={renderList (s.drops.map renderEv)} unhandled=- escaped=-"
   | _, _ => s!"res {c.id} bad-case"
 
